@@ -1,6 +1,7 @@
 (* C17 Decoder robustness and leniency (partial: byte-level behaviour -- no panic on arbitrary bytes, zero value on
    error, destination untouched -- is explored on the real decoder at run time; the statements below are about the
-   document tree, which is what the decoder sees after tokenising) *)
+   document tree, which is what the decoder sees after tokenising, except the last group, which is about the bytes:
+   the nesting scan in front of the recursive readers) *)
 From LD Require Import Base F32 Data Model Ops Codec CodecFacts PermDecode DefaultsDecode.
 From Coq Require Import Permutation.
 
@@ -159,3 +160,31 @@ Theorem C17_default_is_omission_segment_target : forall pre post k d, NoDup (map
   rd_segtarget (JObj (pre ++ (k, d) :: post)) = rd_segtarget (JObj (pre ++ post)).
 Proof. exact default_segtarget. Qed.
 Print Assumptions C17_default_is_omission_segment_target.
+
+(* ---- byte level: the nesting scan that the byte entry points run before the recursive readers ---- *)
+From LD Require Import Nesting NestingSpec TablesNest.
+
+(* whatever the bytes are -- well-formed or not -- a byte string that is let through never has more than 10000 brackets
+   open outside string literals at any point, and one that has is refused: the recursion of the readers behind the scan
+   (one level per open bracket) is bounded for arbitrary input *)
+Theorem C17_accepted_bytes_have_bounded_nesting : forall bs,
+  nesting_ok bs = true <-> (forall pre suf : str, bs = (pre ++ suf)%list -> open_level pre <= 10000).
+Proof. exact nesting_ok_iff. Qed.
+Print Assumptions C17_accepted_bytes_have_bounded_nesting.
+
+(* the scan is exact on documents: the compact text of any JSON tree (strings may hold brackets, quotes, backslashes) is
+   let through if and only if the tree nests at most 10000 arrays / objects -- nothing shallower is refused *)
+Theorem C17_nesting_scan_is_exact_on_documents : forall t, doc_plain t = true ->
+  nesting_ok (render t) = (doc_depth t <=? 10000).
+Proof. exact nesting_ok_exact. Qed.
+Print Assumptions C17_nesting_scan_is_exact_on_documents.
+
+Theorem C17_deep_arrays_are_refused : forall n w, forallb plain_byte w = true ->
+  nesting_ok (render (nest n (DTok w))) = (Z.of_nat n <=? 10000).
+Proof. exact deep_arrays_refused. Qed.
+Print Assumptions C17_deep_arrays_are_refused.
+
+Theorem C17_nesting_constants_match_source :
+  nesting_limits_src = [10000]%list /\ nesting_chars_src = [34; 91; 92; 93; 123; 125]%list.
+Proof. exact nesting_constants_match_source. Qed.
+Print Assumptions C17_nesting_constants_match_source.
